@@ -129,15 +129,13 @@ def readLabel (bits : Bits) (n : Nat) : Option (Bits × Bits) :=
     | false :: r2 => if r2.length < len then none else some (r2.take len, r2.drop len)
     | _ => none
   | true :: false :: rest =>               -- hml_long
-    let w := bitLength n
-    if w == 0 then none else               -- `load_uint(0)` raises
+    let w := bitLength n                   -- `(#<= 0)`: a zero-width field reads as 0 (fix 602ccc8)
     if rest.length < w then none else
     let len := natOfBits (rest.take w)
     let r1 := rest.drop w
     if r1.length < len then none else some (r1.take len, r1.drop len)
   | true :: true :: v :: rest =>           -- hml_same
-    let w := bitLength n
-    if w == 0 then none else
+    let w := bitLength n                   -- `(#<= 0)`: a zero-width field reads as 0 (fix 602ccc8)
     if rest.length < w then none else
     let len := natOfBits (rest.take w)
     some (List.replicate len v, rest.drop w)
